@@ -45,6 +45,9 @@ type variant struct {
 	HealthErr   bool
 	KeySetErr   bool
 	DupUserCode int
+	StrictJWT   bool   // vstore.StrictJWTProfileScopes: the storage rejects unknown jwt-bearer scopes
+	StrictCC    bool   // vstore.StrictClientCredentialsScopes
+	RefuseUser  string // vstore.RefuseClaimsFor: the storage withholds the claims of this user
 }
 
 func (v variant) String() string {
@@ -71,6 +74,7 @@ func drawVariant(r *rand.Rand) variant {
 		DeviceCfg:   pick(r, "path", "path", "url", "bad-url", "digits"),
 		UIinIDToken: chance(r, 1, 3), NoCORS: chance(r, 1, 6),
 		HealthErr: chance(r, 1, 10), KeySetErr: chance(r, 1, 25),
+		StrictJWT: chance(r, 1, 2), StrictCC: chance(r, 1, 2),
 	}
 	// full capabilities half of the time (deep code), the other subsets otherwise
 	if chance(r, 1, 2) {
@@ -80,6 +84,9 @@ func drawVariant(r *rand.Rand) variant {
 	}
 	if chance(r, 1, 8) {
 		v.DupUserCode = 1 + r.IntN(6)
+	}
+	if chance(r, 1, 3) {
+		v.RefuseUser = "user-2"
 	}
 	return v
 }
@@ -224,6 +231,7 @@ func newWorld(run *ev.Run, r *rand.Rand, v variant, router, caseIdx, worker int)
 		st.KeySetErr = errors.New("vstore: key set unavailable")
 	}
 	st.DupUserCodes = v.DupUserCode
+	st.StrictJWTProfileScopes, st.StrictClientCredentialsScopes, st.RefuseClaimsFor = v.StrictJWT, v.StrictCC, v.RefuseUser
 	x.cl = opdrv.StdClients(st)
 	// a client registered for everything (Basic), so that deep grant code is reachable whichever grant is drawn
 	all := vclient.Confidential("all", "secret-all", "https://all.example/cb", "https://all.example/cb2")
@@ -420,7 +428,8 @@ func (x *world) flowReq(op, method, endpoint string, params plist, a authSpec) (
 }
 
 // mintCode runs authorize -> login -> callback for client c; returns the code item ("" on failure).
-func (x *world) mintCode(c *vclient.Client, scope, respType string, login bool) (code item, reqID string) {
+// mode is the response_mode to ask for ("" = mostly none, sometimes a random one).
+func (x *world) mintCode(c *vclient.Client, scope, respType string, login bool, mode string) (code item, reqID string) {
 	if len(c.Redirects) == 0 {
 		return item{}, ""
 	}
@@ -438,7 +447,9 @@ func (x *world) mintCode(c *vclient.Client, scope, respType string, login bool) 
 			p.add("code_challenge_method", "plain")
 		}
 	}
-	if chance(x.r, 1, 6) {
+	if mode != "" {
+		p.add("response_mode", mode)
+	} else if chance(x.r, 1, 6) {
 		p.add("response_mode", pick(x.r, "query", "fragment", "form_post"))
 	}
 	q, router := x.flowReq("authorize", "GET", "authorize", p, authSpec{})
@@ -496,7 +507,7 @@ func (x *world) harvestTokens(resp *opdrv.Resp, client string) bool {
 
 // mintTokens runs the whole code flow including the exchange.
 func (x *world) mintTokens(c *vclient.Client, scope string) bool {
-	code, _ := x.mintCode(c, scope, "code", true)
+	code, _ := x.mintCode(c, scope, "code", true, "")
 	if code.Val == "" {
 		return false
 	}
@@ -561,9 +572,13 @@ func (x *world) harvest() {
 	for _, id := range []string{"web", "all", pick(x.r, "native", "post", "jwt", "web2")} {
 		x.mintTokens(x.cl[id], pick(x.r, "openid profile email offline_access", "openid offline_access", "openid"))
 	}
-	x.mintCode(x.cl["web"], "openid", "code", true)             // an unredeemed code
-	x.mintCode(x.cl["all"], "openid profile", "id_token", true) // implicit: id token in the fragment
-	x.mintCode(x.cl["web2"], "openid", "code", false)           // a pending request
+	x.mintCode(x.cl["web"], "openid", "code", true, "")             // an unredeemed code
+	x.mintCode(x.cl["all"], "openid profile", "id_token", true, "") // implicit: id token in the fragment
+	x.mintCode(x.cl["web2"], "openid", "code", false, "")           // a pending request
+	if chance(x.r, 1, 2) {
+		// implicit flow delivered as a form_post page by the callback of a finished request
+		x.mintCode(x.client("web", "web2", "all"), "openid profile", pick(x.r, "id_token", "id_token token"), true, "form_post")
+	}
 	if x.v.Caps.Dev {
 		x.mintDevice(x.cl["dev"], pick(x.r, "pending", "approved"))
 	}
